@@ -1,6 +1,6 @@
 (* C13 - the property theorems, nothing else.  Each is closed by [exact] of a lemma proved in Msg/*.v and followed by
    Print Assumptions.  [mz_table] is the handler table tools/facts_c13.py regenerates from the source on every run. *)
-From Icv Require Import Base.Tac Msg.MzModel Msg.MzFacts Msg.MzProofs Msg.MzObs Msg.MzOracleProofs.
+From Icv Require Import Base.Tac Msg.MzModel Msg.MzFacts Msg.MzProofs Msg.MzObs Msg.MzOracleProofs Msg.MzIdx.
 From Coq Require Import String.
 Local Open Scope nat_scope.
 Local Open Scope string_scope.
@@ -87,6 +87,13 @@ Theorem C13_oracle_accepts_model : forall t c s m ts method,
   mz_oracle_msg t c s m method (mz_run t c s m ts method) = 0.
 Proof. exact mz_oracle_accepts_model. Qed.
 Print Assumptions C13_oracle_accepts_model.
+
+(* the string-free, index-addressed entry points that are extracted into vmodel are the functions above *)
+Theorem C13_extracted_entry_points : forall t c s m ts i name k o,
+  nth_error mz_class_table i = Some (name, k) ->
+  mz_run_i t c s m ts i = mz_run t c s m ts name /\ mz_oracle_i t c s m i o = mz_oracle_msg t c s m name o.
+Proof. intros; split; [eapply mz_run_i_spec|eapply mz_oracle_i_spec]; eassumption. Qed.
+Print Assumptions C13_extracted_entry_points.
 
 (* non-vacuity: a depth-3 tree, receiver in the middle; a sender from the parent zone is authorised for a config
    update (flag on) and refused with the flag off; a sender from the child zone is refused; a child-zone sender may
